@@ -134,7 +134,7 @@ func c14Check(r *hx.Run, locs []locSpec, names []string, host, uri string, ls *l
 }
 
 func c14(r *hx.Run) {
-	r.Rule = "exhaustive: every ordered tuple of <=3 location shapes (host subset of {h1,h2} x prefix subset of {/a,/a/b,/b}) x every subset of the location names x 15 queries ({h1,h2,h3} x {/a/x,/a/b/x,/b,/c,/}); sampled tuples of 4; random larger universes (prefix lengths 1..236, so that length differences inside and across classes are large); then end-to-end configs through a real server (incl. percent-encoded request URIs, which are matched as sent) with one origin per location (which origin saw the request). Non-trivial = lookup with >=2 matching named locations of different classes or no match; distinct = (shape tuple, names, query)."
+	r.Rule = "exhaustive: every ordered tuple of <=3 location shapes (host subset of {h1,h2} x prefix subset of {/a,/a/b,/b}) x every subset of the location names x 15 queries ({h1,h2,h3} x {/a/x,/a/b/x,/b,/c,/}); sampled tuples of 4; random larger universes (prefix lengths 1..236, so that length differences inside and across classes are large); then end-to-end configs through a real server (incl. percent-encoded request URIs, which are matched as sent, and requests whose X-Forwarded-Host/Forwarded headers name another configured host) with one origin per location (which origin saw the request). Non-trivial = lookup with >=2 matching named locations of different classes or no match; distinct = (shape tuple, names, query)."
 	r.Assume = []string{"ties inside one class are left to pike (any member accepted)"}
 	rnd := rand.New(rand.NewSource(r.Seed))
 	hostSets := subsets([]string{"h1", "h2"})
